@@ -215,7 +215,7 @@ func c14Hashes(c *Check) {
 			var selObj types.Object
 			ast.Inspect(r.FI.Decl.Body, func(x ast.Node) bool {
 				if ix, ok := x.(*ast.IndexExpr); ok {
-					if o := objOf(ri, ix.X); o != nil && o.Name() == "HashCompute" {
+					if o := objOf(ri, ix.X); o != nil && objName(o) == "HashCompute" {
 						if s, ok := constString(ri, ix.Index); ok {
 							selConst = s
 						} else {
@@ -281,7 +281,7 @@ func c14Verify(c *Check) {
 			if fo != nil {
 				def, n := localDef(info, r.FI.Decl.Body, fo)
 				if ix, ok := ast.Unparen(def).(*ast.IndexExpr); ok && n == 1 {
-					if o := objOf(info, ix.X); o != nil && o.Name() == "HashVerify" {
+					if o := objOf(info, ix.X); o != nil && objName(o) == "HashVerify" {
 						nVerify++
 						if len(call.Args) < 1 || objOf(info, call.Args[0]) != pw || pw == nil {
 							msg = "the verifier is not applied to the supplied password"
@@ -399,7 +399,7 @@ func c14Mapping(c *Check) {
 	for _, b := range apFn.Blocks {
 		for _, ins := range b.Instrs {
 			ci, ok := ins.(ssa.CallInstruction)
-			if !ok || !ci.Common().IsInvoke() || ci.Common().Method.Name() != "AuthPlain" {
+			if !ok || !ci.Common().IsInvoke() || objName(ci.Common().Method) != "AuthPlain" {
 				continue
 			}
 			nProv++
@@ -584,7 +584,7 @@ func c14Gate(c *Check) {
 					return be.Op == token.EQL, true
 				}
 			}
-			if fv := fieldOf(info, atom); fv != nil && fv.Name() == "authAlwaysRequired" {
+			if fv := fieldOf(info, atom); fv != nil && objName(fv) == "authAlwaysRequired" {
 				return true, true
 			}
 			return false, false
@@ -597,7 +597,7 @@ func c14Gate(c *Check) {
 			}
 			return nodeAssigns(pt.Node(), func(l, _ ast.Expr) bool {
 				fv := fieldOf(info, l)
-				return fv != nil && (fv.Name() == "mailFrom" || fv.Name() == "opts" || fv.Name() == "delivery" || fv.Name() == "msgMeta")
+				return fv != nil && (objName(fv) == "mailFrom" || objName(fv) == "opts" || objName(fv) == "delivery" || objName(fv) == "msgMeta")
 			}) || r.IsSuccessReturn(pt)
 		}
 		path, f := r.F.Reach(Query{From: r.Entry(), Inclusive: true, Target: protected, AvoidEdge: avoid})
@@ -608,14 +608,14 @@ func c14Gate(c *Check) {
 		info := ri.Info
 		set := ri.Assigns(func(l, rhs ast.Expr) bool {
 			fv := fieldOf(info, l)
-			if fv == nil || fv.Name() != "authAlwaysRequired" || rhs == nil {
+			if fv == nil || objName(fv) != "authAlwaysRequired" || rhs == nil {
 				return false
 			}
 			tv, ok := info.Types[rhs]
 			return ok && tv.Value != nil && tv.Value.Kind() == constant.Bool && constant.BoolVal(tv.Value)
 		})
 		world := ri.F.AvoidImplying(func(atom ast.Expr) (bool, bool) {
-			if fv := fieldOf(info, atom); fv != nil && fv.Name() == "submission" {
+			if fv := fieldOf(info, atom); fv != nil && objName(fv) == "submission" {
 				return false, true // remove "not a submission endpoint" edges
 			}
 			return false, false
